@@ -129,7 +129,18 @@ def run_c04_trees(case):
                     if type(x).__name__ != "Proposition" and j not in seen and x not in pre and type(o).__name__ != "XOr":
                         ok = False
                 seen.add(i)
-            results.append({"tree": tree, "val": "".join(val), "states": states, "children_first": ok})
+            # the same evaluation by NODE-level calls (implementation only): formula.upward() on every sub-formula the user
+            # wrote, operands before operators; one call per formula must evaluate it, composites (Iff, XOr) included
+            kb.model.reset_bounds()
+            for i, x in enumerate(val):
+                if i in reg:
+                    kb.model.add_data({kb.obj[i]: vals3[x]})
+            for i, st in sub:
+                if st[0] != "atom":
+                    kb.obj[i].upward()
+            states_node = {i: kb.obj[i].state().name for i, _ in sub}
+            impl.take_log()
+            results.append({"tree": tree, "val": "".join(val), "states": states, "children_first": ok, "states_node": states_node})
     return {"lines": lines, "impl": out, "meta": {"results": results}}
 
 
